@@ -1,6 +1,6 @@
 (* Executable wrappers for the C19 models (instantiated at Qc). *)
 From Coq Require Import ZArith QArith Qcanon List Bool Arith.
-From QV.Core Require Import OF QcOF Sums Mat.
+From QV.Core Require Import OF QcOF Sums Mat Cplx.
 From QV.Exec Require Import Base.
 From QV.Model Require Import Multinomial C19_Expect C19_ErrFormulas.
 From QV.Proofs Require Import C19_ErrFormulas.
@@ -106,6 +106,14 @@ Definition op_se : opfun := fun zs qs =>
   | [K; len] => let K' := nz K in let n := nz len in
       let xs := chunks n K' (take (K' * n) qs) in let ys := chunks n K' (drop (K' * n) qs) in
       Ok [calc_se Fq n (combine (map vlist xs) (map vlist ys))]
+  | _ => Err (-1) end.
+(* complex arrays: zs = [K; len]; qs = xs (K x len complex, interleaved re im) ++ ys likewise *)
+Definition cvlist (l : list Qc) : nat -> cplx Fq := fun i => nth i (cplx_of_flat l) (q0, q0).
+Definition op_cse : opfun := fun zs qs =>
+  match zs with
+  | [K; len] => let K' := nz K in let n := nz len in
+      let xs := chunks (2 * n) K' (take (K' * (2 * n)) qs) in let ys := chunks (2 * n) K' (drop (K' * (2 * n)) qs) in
+      Ok [calc_se_c Fq n (combine (map cvlist xs) (map cvlist ys))]
   | _ => Err (-1) end.
 (* qs = values : [mean; variance (ddof = 1)] *)
 Definition op_mean_var : opfun := fun _ qs => Ok [mean Fq qs; var_ddof1 Fq qs].
@@ -358,6 +366,7 @@ Definition C19_ops : optable :=
     ("c19.mu_fisher_total"%string, op_mu_fisher_total);
     ("c19.fisher_total_def"%string, op_fisher_total_def);
     ("c19.se"%string, op_se);
+    ("c19.cse"%string, op_cse);
     ("c19.mean_var"%string, op_mean_var);
     ("c19.mse_norm"%string, op_mse_norm);
     ("c19.prob_dists"%string, op_prob_dists);
